@@ -363,3 +363,151 @@ theorem supersampledList_ok_iff (st : Stat) (nx ny : Nat) (xs ys : List Rat) {ss
   | cons s rest => exact supersampledListAux_ok_iff st nx ny xs ys (s :: rest) fs
 
 end HcipyVerif.Aperture
+
+/-! ### min ≤ mean ≤ max -/
+
+namespace HcipyVerif.Aperture
+
+theorem zipWith_getD (g : Rat → Rat → Rat) (a b : List Rat) (k : Nat) (ha : k < a.length) (hb : k < b.length) :
+    (List.zipWith g a b).getD k 0 = g (a.getD k 0) (b.getD k 0) := by
+  simp [List.getD_eq_getElem?_getD, List.getElem?_zipWith, List.getElem?_eq_getElem ha, List.getElem?_eq_getElem hb]
+
+/-- the running minimum is below every field seen so far, at every pixel -/
+theorem foldl_min_le (n : Nat) (r : List (List Rat)) (f : List Rat) (hf : f.length = n)
+    (hr : ∀ g ∈ r, g.length = n) (k : Nat) (hk : k < n) :
+    ∀ g ∈ f :: r, (r.foldl minFields f).getD k 0 ≤ g.getD k 0 := by
+  induction r generalizing f with
+  | nil => intro g hg; simp at hg; subst hg; exact le_refl _
+  | cons h r ih =>
+    have hh := hr h List.mem_cons_self
+    have hlen : (minFields f h).length = n := by simp [minFields, hf, hh]
+    have hstep : (minFields f h).getD k 0 ≤ f.getD k 0 ∧ (minFields f h).getD k 0 ≤ h.getD k 0 := by
+      unfold minFields
+      rw [zipWith_getD _ f h k (by omega) (by omega)]
+      generalize f.getD k 0 = u
+      generalize h.getD k 0 = v
+      split_ifs with hle
+      · exact ⟨le_refl _, hle⟩
+      · exact ⟨le_of_lt (lt_of_not_ge hle), le_refl _⟩
+    have := ih (minFields f h) hlen (fun g hg => hr g (List.mem_cons_of_mem _ hg))
+    intro g hg
+    rw [List.foldl_cons]
+    have h0 := this (minFields f h) List.mem_cons_self
+    rcases List.mem_cons.mp hg with rfl | hg
+    · exact le_trans h0 hstep.1
+    · rcases List.mem_cons.mp hg with rfl | hg
+      · exact le_trans h0 hstep.2
+      · exact this g (List.mem_cons_of_mem _ hg)
+
+theorem foldl_max_ge (n : Nat) (r : List (List Rat)) (f : List Rat) (hf : f.length = n)
+    (hr : ∀ g ∈ r, g.length = n) (k : Nat) (hk : k < n) :
+    ∀ g ∈ f :: r, g.getD k 0 ≤ (r.foldl maxFields f).getD k 0 := by
+  induction r generalizing f with
+  | nil => intro g hg; simp at hg; subst hg; exact le_refl _
+  | cons h r ih =>
+    have hh := hr h List.mem_cons_self
+    have hlen : (maxFields f h).length = n := by simp [maxFields, hf, hh]
+    have hstep : f.getD k 0 ≤ (maxFields f h).getD k 0 ∧ h.getD k 0 ≤ (maxFields f h).getD k 0 := by
+      unfold maxFields
+      rw [zipWith_getD _ f h k (by omega) (by omega)]
+      generalize f.getD k 0 = u
+      generalize h.getD k 0 = v
+      split_ifs with hle
+      · exact ⟨hle, le_refl _⟩
+      · exact ⟨le_refl _, le_of_lt (lt_of_not_ge hle)⟩
+    have := ih (maxFields f h) hlen (fun g hg => hr g (List.mem_cons_of_mem _ hg))
+    intro g hg
+    rw [List.foldl_cons]
+    have h0 := this (maxFields f h) List.mem_cons_self
+    rcases List.mem_cons.mp hg with rfl | hg
+    · exact le_trans hstep.1 h0
+    · rcases List.mem_cons.mp hg with rfl | hg
+      · exact le_trans hstep.2 h0
+      · exact this g (List.mem_cons_of_mem _ hg)
+
+/-- the running sum between `count·lo` and `count·hi` when every field is between `lo` and `hi` at pixel k -/
+theorem foldl_add_between (n : Nat) (fs : List (List Rat)) (acc : List Rat) (hacc : acc.length = n)
+    (hlen : ∀ g ∈ fs, g.length = n) (k : Nat) (hk : k < n) (lo hi : Rat)
+    (hb : ∀ g ∈ fs, lo ≤ g.getD k 0 ∧ g.getD k 0 ≤ hi) :
+    acc.getD k 0 + fs.length * lo ≤ (fs.foldl addFields acc).getD k 0 ∧
+      (fs.foldl addFields acc).getD k 0 ≤ acc.getD k 0 + fs.length * hi := by
+  induction fs generalizing acc with
+  | nil => simp
+  | cons h r ih =>
+    have hh := hlen h List.mem_cons_self
+    have hlen' : (addFields acc h).length = n := by simp [addFields, hacc, hh]
+    have hstep : (addFields acc h).getD k 0 = acc.getD k 0 + h.getD k 0 := by
+      unfold addFields; rw [zipWith_getD _ acc h k (by omega) (by omega)]
+    have := ih (addFields acc h) hlen' (fun g hg => hlen g (List.mem_cons_of_mem _ hg))
+      (fun g hg => hb g (List.mem_cons_of_mem _ hg))
+    have hbh := hb h List.mem_cons_self
+    rw [List.foldl_cons]
+    rw [hstep] at this
+    simp only [List.length_cons, Nat.cast_add, Nat.cast_one]
+    constructor
+    · nlinarith [this.1, hbh.1]
+    · nlinarith [this.2, hbh.2]
+
+/-- **min ≤ mean ≤ max at every pixel**, for fields of equal length -/
+theorem combine_min_mean_max (n : Nat) (fs : List (List Rat)) (hne : fs ≠ [])
+    (hlen : ∀ g ∈ fs, g.length = n) (k : Nat) (hk : k < n) :
+    (combineFields .min n fs).getD k 0 ≤ (combineFields .mean n fs).getD k 0 ∧
+      (combineFields .mean n fs).getD k 0 ≤ (combineFields .max n fs).getD k 0 := by
+  cases fs with
+  | nil => exact absurd rfl hne
+  | cons f r =>
+    have hf := hlen f List.mem_cons_self
+    have hr : ∀ g ∈ r, g.length = n := fun g hg => hlen g (List.mem_cons_of_mem _ hg)
+    have hmin := foldl_min_le n r f hf hr k hk
+    have hmax := foldl_max_ge n r f hf hr k hk
+    have hsum := foldl_add_between n (f :: r) (List.replicate n 0) (by simp) hlen k hk
+      ((r.foldl minFields f).getD k 0) ((r.foldl maxFields f).getD k 0)
+      (fun g hg => ⟨hmin g hg, hmax g hg⟩)
+    have hzero : (List.replicate n (0 : Rat)).getD k 0 = 0 := by simp [List.getD_eq_getElem?_getD, hk]
+    rw [hzero, zero_add, zero_add] at hsum
+    have hslen : ((f :: r).foldl addFields (List.replicate n 0)).length = n :=
+      foldl_addFields_length n (f :: r) _ (by simp) hlen
+    have hpos : (0 : Rat) < ((f :: r).length : Rat) := by
+      have : 0 < (f :: r).length := by simp
+      exact_mod_cast this
+    have hmean : (combineFields .mean n (f :: r)).getD k 0
+        = ((f :: r).foldl addFields (List.replicate n 0)).getD k 0 / ((f :: r).length : Rat) := by
+      simp only [combineFields, meanFields]
+      have hk' : k < ((f :: r).foldl addFields (List.replicate n 0)).length := by omega
+      rw [List.getD_eq_getElem?_getD, List.getD_eq_getElem?_getD, List.getElem?_map,
+        List.getElem?_eq_getElem hk']
+      rfl
+    rw [hmean]
+    simp only [combineFields]
+    constructor
+    · rw [le_div_iff₀ hpos]; linarith [hsum.1]
+    · rw [div_le_iff₀ hpos]; linarith [hsum.2]
+
+/-- **min ≤ mean ≤ max at every pixel** of `evaluate_supersampled` -/
+theorem supersampledStat_order {s : Shape} (hw : WF s) {nx ny : Nat} {xs ys fmin fmean fmax : List Rat}
+    (hmin : supersampledStat .min s nx ny xs ys = .ok fmin) (hmean : supersampled s nx ny xs ys = .ok fmean)
+    (hmax : supersampledStat .max s nx ny xs ys = .ok fmax) (k : Nat) (hk : k < xs.length * ys.length) :
+    fmin.getD k 0 ≤ fmean.getD k 0 ∧ fmean.getD k 0 ≤ fmax.getD k 0 := by
+  rw [← supersampledStat_mean] at hmean
+  obtain ⟨gs, hg, h1, h2, rfl⟩ := supersampledStat_ok hmin
+  obtain ⟨gs', hg', _, _, rfl⟩ := supersampledStat_ok hmean
+  obtain ⟨gs'', hg'', _, _, rfl⟩ := supersampledStat_ok hmax
+  rw [hg] at hg' hg''
+  injection hg' with hg'
+  injection hg'' with hg''
+  subst hg' hg''
+  have hlen := ditherGrids_length hg
+  apply combine_min_mean_max _ _ _ _ k hk
+  · intro he
+    have : gs = [] := by simpa using he
+    rw [this] at hlen
+    have : 0 < ny * nx := Nat.mul_pos h2 h1
+    simp at hlen
+    omega
+  · intro fl hfl
+    simp only [List.mem_map] at hfl
+    obtain ⟨g, hgm, rfl⟩ := hfl
+    have := ditherGrids_lengths hg g hgm
+    rw [evalSep_length s _ _ hw, this.1, this.2]
+
+end HcipyVerif.Aperture
